@@ -7,6 +7,7 @@ LEVEL = "exploration"
 SHARDS = {"quick": 8, "thorough": 16}
 TIMEOUT = {"quick": 900, "thorough": 7200}
 REQUIRED = {"output": 700, "path_monitor": 700, "reject": 150, "injective": 1, "bip85_data": 8}
+ANCHORS = ['bip85:BIP85DeterministicEntropy.entropy', 'bip85:BIP85DeterministicEntropy.bip39_mnemonic', 'bip85:BIP85DeterministicEntropy.wif', 'bip85:BIP85DeterministicEntropy.xprv', 'bip85:BIP85DeterministicEntropy.hex', 'bip85:BIP85DeterministicEntropy.pwd', 'paper_wallet:PaperWallet.bip85_data', 'wallet_utils:Bip32Path.convert_hardened']
 RULE = ("masters: random + boundary scalars; ALL 5 word counts, ALL 49 byte counts 16..64, ALL 67 password lengths 20..86 "
         "(exhaustive) x indexes {0, 1, 2^31-1, random}; WIF and XPRV x same indexes; rejection on both sides of every bound "
         "(word counts, bytes 15/65, length 19/87, index -1, -2^31, 2^31, 2^32, floats, None); the index_list handed to "
